@@ -146,6 +146,26 @@ fn mismatches(cx: &mut Cx, issuer: NodeId, holder: NodeId, key: Arc<KeyMat>, req
         { let mut r = req2.clone(); r.c_value = hc2.c_value.clone(); deliver_request(cx, issuer, key2.clone(), r, "commitment_to_other_attributes".into(), false); }
         { let mut r = req2.clone(); r.zk_json = hc2.zk_json.clone(); deliver_request(cx, issuer, key2.clone(), r, "proof_for_other_attributes".into(), false); }
         if trusted { let mut r = req2.clone(); r.ct_value = hc2.ct_value.clone(); deliver_request(cx, issuer, key2.clone(), r, "trusted_commitment_of_another_session".into(), false); }
+        // Mallory: sub-proofs of the OTHER honest proof spliced into this one (a range proof that
+        // is about another commitment; a per-attribute proof of another attribute)
+        let (va, vb) = (parse(&req2.zk_json), parse(&hc2.zk_json));
+        for (name, path) in [("range_proofs_mi[0]", "/CL03/range_proofs_mi/0"), ("range_proof_r", "/CL03/range_proof_r"), ("proofs_commited_mi[0]", "/CL03/proofs_commited_mi/0"), ("proof_r", "/CL03/proof_r"), ("proof_commited_msgs", "/CL03/proof_commited_msgs")] {
+            let mut v = va.clone();
+            if let (Some(slot), Some(src)) = (v.pointer_mut(path), vb.pointer(path)) { *slot = src.clone(); } else { continue; }
+            let mut r = req2.clone();
+            r.zk_json = v.to_string();
+            deliver_request(cx, issuer, key2.clone(), r, format!("forged_subproof_splice:{name}"), false);
+        }
+        // ... and consistent PAIRS (proof of knowledge + range proof about the same foreign commitment)
+        for (name, paths) in [("proofs_commited_mi[0]+range_proofs_mi[0]", vec!["/CL03/proofs_commited_mi/0", "/CL03/range_proofs_mi/0"]), ("proof_r+range_proof_r", vec!["/CL03/proof_r", "/CL03/range_proof_r"])] {
+            let mut v = va.clone();
+            let mut ok = true;
+            for path in &paths { if let (Some(slot), Some(src)) = (v.pointer_mut(path), vb.pointer(path)) { *slot = src.clone(); } else { ok = false; } }
+            if !ok { continue; }
+            let mut r = req2.clone();
+            r.zk_json = v.to_string();
+            deliver_request(cx, issuer, key2.clone(), r, format!("forged_subproof_pair_splice:{name}"), false);
+        }
     });
     // other hidden-position sets
     if n > 1 {
